@@ -408,7 +408,7 @@ func (w *world) checkImage(ops []Op, img string, kind string, cont bool, altCras
 	}
 	tOpen += time.Since(t0)
 	full := append(append([]Op{}, ops...), Op{K: "o"})
-	a := w.ask(full, obs)
+	a := w.ask(ops, obs) // the model line is the model's reopen of the final disk; the predicate sees acked / in-flight as they were at the crash
 	key := kind
 	rep := func() any { return replayImage{Kind: kind, Ops: ops, Files: pre(), Cont: cont} }
 	w.c.Hist["image:"+kind]++
@@ -423,7 +423,7 @@ func (w *world) checkImage(ops []Op, img string, kind string, cont bool, altCras
 	} else if obs != a.model {
 		ok := false
 		if altCrash != nil {
-			alt := append(append([]Op{}, ops[:len(ops)-1]...), *altCrash, Op{K: "o"})
+			alt := append(append([]Op{}, ops[:len(ops)-1]...), *altCrash)
 			ok = w.ask(alt, obs).model == obs
 		}
 		if !ok {
@@ -529,7 +529,7 @@ func (w *world) exec(o Op) {
 	default:
 		hx.Fatalf("exec: op %s", o.K)
 	}
-	if len(w.ops)-w.baseLen > 24 { // nothing outstanding refers to a shorter prefix here
+	if len(w.ops)-w.baseLen > 6 { // nothing outstanding refers to a shorter prefix here
 		w.or.Ask("adv "+opsLine(w.ops[w.baseLen:]), 1)
 		w.baseLen = len(w.ops)
 	}
@@ -817,14 +817,14 @@ func (w *world) flushWithImages(dense bool) {
 	if s.isNew {
 		crashes = append(crashes, Op{K: "fc", C: "new"})
 	}
-	cuts := map[int]bool{0: true, 1: true, recLen - 2: true, recLen - 3: true, 10: true, 11: true, 22: true}
+	cuts := map[int]bool{0: true, 1: true, recLen - 2: true, recLen - 3: true, 10: true, 11: true}
 	// chunk boundaries inside a multi-chunk record
 	for off := (s.sizeA/32768 + 1) * 32768; off < s.recEnd; off += 32768 {
 		for _, dlt := range []int{-3, -2, -1, 0, 1, 10, 11} {
 			cuts[off-s.sizeA-1+dlt] = true
 		}
 	}
-	nr := 6
+	nr := 3
 	if dense {
 		nr = 40
 	}
@@ -1221,7 +1221,7 @@ func main() {
 		os.RemoveAll(base)
 		c.Finish(rule)
 	}
-	nAdv, nDrv, nCl := 40, 2, 3
+	nAdv, nDrv, nCl := 28, 1, 3
 	if c.Thorough() {
 		nAdv, nDrv, nCl = 400, 12, 20
 	}
@@ -1234,7 +1234,12 @@ func main() {
 	for i := 0; i < nAdv; i++ {
 		w.adversarial(12+w.rng.Intn(40), false)
 	}
-	// heights 0: a separate stream (see findings/C14.md)
+	// height 0: a directed case and a separate random stream (see findings/C14.md)
+	w.reset("height0")
+	w.exec(Op{K: "a", H: 0, ID: 5})
+	w.exec(Op{K: "a", H: 1, ID: 6})
+	w.exec(Op{K: "f"})
+	w.finish()
 	for i := 0; i < nAdv/4; i++ {
 		w.adversarial(8+w.rng.Intn(12), true)
 	}
